@@ -93,13 +93,17 @@ VARIABLES store,    \* [Replica -> set of stored items]           (MeldaCore ite
           apacks,   \* [Replica -> set of pack records indexed in memory]
           staged,   \* [Replica -> [Obj -> set of staged revisions]]
           sobjs,    \* [Replica -> set of staged object contents]
+          ocache,   \* [Replica -> set of object contents in the in-memory object cache] (tracked when "cache" \in Feat)
           up,       \* [Replica -> BOOLEAN]   process alive
           cnt,      \* counters bounding the exploration
           seen,     \* set of <<head set, view>>: the views replicas had at their head sets (C14)
           act,      \* the last action (hidden by VIEW; read by the action properties)
           sched     \* the operations so far (hidden by VIEW), replayed in the real library
-core == <<store, known, applied, apacks, staged, sobjs, up, cnt, seen>>
-vars == <<store, known, applied, apacks, staged, sobjs, up, cnt, seen, act, sched>>
+core == <<store, known, applied, apacks, staged, sobjs, ocache, up, cnt, seen>>
+\* the same without the operation counter: under breadth-first search the first visit of a state is the one with
+\* the fewest operations, so merging states that differ only in cnt.ops loses nothing within the MaxOps bound
+coreNoOps == <<store, known, applied, apacks, staged, sobjs, ocache, up, [cnt EXCEPT !.ops = 0], seen>>
+vars == <<store, known, applied, apacks, staged, sobjs, ocache, up, cnt, seen, act, sched>>
 
 BlocksOf(S) == Core!Blocks(S)
 PacksOf(S) == Core!Packs(S)
@@ -179,6 +183,7 @@ Init ==
     /\ apacks = [r \in Replica |-> {}]
     /\ staged = [r \in Replica |-> [o \in Obj |-> {}]]
     /\ sobjs = [r \in Replica |-> {}]
+    /\ ocache = [r \in Replica |-> {}]
     /\ up = [r \in Replica |-> TRUE]
     /\ cnt = [edits |-> 0, blocks |-> 0, crash |-> 0, fail |-> 0, damage |-> 0, ops |-> 0]
     /\ seen = {}
@@ -194,6 +199,7 @@ Down(r) ==      \* the process dies: everything in memory is lost
     /\ apacks' = [apacks EXCEPT ![r] = {}]
     /\ staged' = [staged EXCEPT ![r] = [o \in Obj |-> {}]]
     /\ sobjs' = [sobjs EXCEPT ![r] = {}]
+    /\ ocache' = [ocache EXCEPT ![r] = {}]
 
 -----------------------------------------------------------------------------
 (* update(doc) *)
@@ -219,12 +225,22 @@ EditRevs(r, d) ==
 Storable(c) == c.k \notin {"d", "r"}
 AvailMem(r) == UNION {p.objs : p \in apacks[r]}
 StageObjs(r, revs) == {Last(x) : x \in {y \in revs : Storable(Last(y)) /\ Last(y) \notin AvailMem(r)}}
+\* The object cache (DataStorage.cache): every object body written through write_object is cached, whether or
+\* not it is staged; refresh consults the cache when it decides whether a block's objects are readable
+\* (is_readable_and_valid_revision -> read_object).  unstage evicts the discarded bodies and reload empties
+\* the cache (defects P13 / P12 before their repair: Bug "unstage_keeps_cache" / "reload_keeps_cache").
+BodiesOf(revs) == {Last(x) : x \in {y \in revs : Storable(Last(y))}}
+Cached(r, revs) == IF "cache" \in Feat THEN [ocache EXCEPT ![r] = @ \cup BodiesOf(revs)] ELSE ocache
+CacheItems(c) == IF c = {} THEN {}
+                 ELSE {[name |-> <<"c">>, kind |-> "pack", ok |-> TRUE, idx |-> 0, parents |-> {}, packs |-> {}, changes |-> {}, objs |-> c]}
+ReloadedCache(r) == [ocache EXCEPT ![r] = IF "reload_keeps_cache" \in Bug THEN @ ELSE {}]
 
 Edit(r, d) ==
     /\ up[r] /\ Budget /\ cnt.edits < MaxEdits
     /\ LET new == EditRevs(r, d) IN
        /\ staged' = [staged EXCEPT ![r] = [o \in Obj |-> @[o] \cup new[o]]]
        /\ sobjs' = [sobjs EXCEPT ![r] = @ \cup StageObjs(r, UNION {new[o] : o \in Obj})]
+       /\ ocache' = Cached(r, UNION {new[o] : o \in Obj})
     /\ cnt' = Bump("edits")
     /\ act' = [n |-> "Edit", r |-> r, d |-> d]
     /\ sched' = Append(sched, [op |-> "update", r |-> RIndex(r), d |-> d])
@@ -235,6 +251,7 @@ Edit(r, d) ==
 StageOne(r, o, new, name, v) ==
     /\ staged' = [staged EXCEPT ![r][o] = @ \cup new]
     /\ sobjs' = [sobjs EXCEPT ![r] = @ \cup StageObjs(r, new)]
+    /\ ocache' = Cached(r, new)
     /\ cnt' = Tick
     /\ act' = [n |-> name, r |-> r, o |-> o]
     /\ sched' = Append(sched, [op |-> name, r |-> RIndex(r), o |-> 0, val |-> v])
@@ -253,7 +270,7 @@ ObjRemove(r) ==         \* drops the object's staged revisions; deletes it if it
     /\ "objapi" \in Feat /\ up[r] /\ Budget /\ Tree(r, RAW) # {}
     /\ LET T == TreeC(r, RAW)  w == Core!Winner(T) IN
        /\ staged' = [staged EXCEPT ![r][RAW] = IF T = {} \/ w = NoRev \/ RIsDel(w) \/ RIsRes(w) THEN {} ELSE {Append(w, DEL)}]
-       /\ UNCHANGED sobjs
+       /\ UNCHANGED <<sobjs, ocache>>
     /\ cnt' = Tick
     /\ act' = [n |-> "obj_remove", r |-> r, o |-> RAW]
     /\ sched' = Append(sched, [op |-> "obj_remove", r |-> RIndex(r), o |-> 0, val |-> 0])
@@ -281,6 +298,7 @@ Resolve(r, o, leaf) ==
     /\ LET new == ResolveRevs(r, o, leaf) IN
        /\ staged' = [staged EXCEPT ![r][o] = @ \cup new]
        /\ sobjs' = [sobjs EXCEPT ![r] = @ \cup StageObjs(r, new)]
+       /\ ocache' = Cached(r, new)
     /\ cnt' = Tick
     /\ act' = [n |-> "Resolve", r |-> r, o |-> o, leaf |-> leaf]
     /\ sched' = Append(sched, [op |-> "resolve_by", r |-> RIndex(r), o |-> o, idx |-> Len(leaf), k |-> Last(leaf).k,
@@ -293,7 +311,8 @@ AutoResolved(r) ==       \* staged revisions and objects after step 1
     LET conf == {a \in ArrObjs : Tree(r, a) # {} /\ Cardinality(Leaves(r, a)) > 1}
         new == [o \in Obj |-> IF o \in conf /\ ~("no_autoresolve" \in Bug) THEN ResolveRevs(r, o, W(r, o)) ELSE {}]
     IN [st |-> [o \in Obj |-> staged[r][o] \cup new[o]],
-        so |-> sobjs[r] \cup StageObjs(r, UNION {new[o] : o \in Obj})]
+        so |-> sobjs[r] \cup StageObjs(r, UNION {new[o] : o \in Obj}),
+        new |-> UNION {new[o] : o \in Obj}]
 
 PackItem(r, objs) == [name |-> <<"p", r, cnt.blocks + 1>>, kind |-> "pack", ok |-> TRUE, idx |-> 0, parents |-> {}, packs |-> {},
                    changes |-> {}, objs |-> objs]
@@ -306,7 +325,8 @@ BlockItem(r, st, packnames) ==
         changes |-> UNION {{[o |-> o, rev |-> x, prev |-> IF Len(x) = 1 THEN NoRev ELSE Front(x)] : x \in st[o]} : o \in Obj},
         objs |-> {}]
 
-CanCommit(r) == up[r] /\ Budget /\ HasStaging(r) /\ cnt.blocks < MaxBlocks
+\* Feat "reader2" (a bound, used by MC_cache): replica 2 only receives files and never commits
+CanCommit(r) == up[r] /\ Budget /\ HasStaging(r) /\ cnt.blocks < MaxBlocks /\ ~("reader2" \in Feat /\ r = 2)
 
 \* a commit in which `nw` storage writes succeed; mode: "ok" | "crash" | "fail"
 CommitOutcome(r, nw, mode) ==
@@ -327,6 +347,7 @@ CommitOutcome(r, nw, mode) ==
     /\ store' = [store EXCEPT ![r] = @ \cup done]
     /\ IF mode = "crash" THEN Down(r)
        ELSE /\ UNCHANGED up
+            /\ ocache' = Cached(r, ar.new)
             /\ IF mode = "ok"
                THEN /\ known' = [known EXCEPT ![r] = @ \cup {block}]
                     /\ applied' = [applied EXCEPT ![r] = @ \cup {block.name}]
@@ -366,7 +387,7 @@ EmptyCommit(r) ==       \* nothing staged: returns None, writes nothing
     /\ cnt' = Tick
     /\ act' = [n |-> "EmptyCommit", r |-> r]
     /\ sched' = Append(sched, [op |-> "commit", r |-> RIndex(r)])
-    /\ UNCHANGED <<store, known, applied, apacks, staged, sobjs, up>>
+    /\ UNCHANGED <<store, known, applied, apacks, staged, sobjs, ocache, up>>
 
 -----------------------------------------------------------------------------
 (* loading: refresh / reload / reopen / reload_until *)
@@ -383,7 +404,8 @@ ReloadOK(r) == \A p \in PacksOf(store[r]) : p.ok
 DoReload(r) ==
     /\ apacks' = [apacks EXCEPT ![r] = PacksOf(store[r])]
     /\ known' = [known EXCEPT ![r] = GoodBlocks(store[r])]
-    /\ applied' = [applied EXCEPT ![r] = Gated(GoodBlocks(store[r]), PacksOf(store[r]))]
+    /\ ocache' = ReloadedCache(r)
+    /\ applied' = [applied EXCEPT ![r] = Gated(GoodBlocks(store[r]), PacksOf(store[r]) \cup CacheItems(ReloadedCache(r)[r]))]
 
 Reload(r) ==
     /\ "reload" \in Feat /\ up[r] /\ Budget /\ ~HasStaging(r) /\ ReloadOK(r)
@@ -417,11 +439,11 @@ Refresh(r) ==
        IN
        /\ apacks' = [apacks EXCEPT ![r] = ap]
        /\ known' = [known EXCEPT ![r] = kn]
-       /\ applied' = [applied EXCEPT ![r] = @ \cup Gated(cand, ap)]
+       /\ applied' = [applied EXCEPT ![r] = @ \cup Gated(cand, ap \cup CacheItems(ocache[r]))]
     /\ cnt' = Tick
     /\ act' = [n |-> "Refresh", r |-> r]
     /\ sched' = Append(sched, [op |-> "refresh", r |-> RIndex(r)])
-    /\ UNCHANGED <<store, staged, sobjs, up>>
+    /\ UNCHANGED <<store, staged, sobjs, ocache, up>>
 
 HeadSetsSeen == {p[1] : p \in seen}
 RECURSIVE FirstParents(_, _)
@@ -438,6 +460,7 @@ ReloadUntil(r, H) ==
     /\ cnt' = Tick
     /\ act' = [n |-> "ReloadUntil", r |-> r, H |-> H]
     /\ sched' = Append(sched, [op |-> "reload_until_set", r |-> RIndex(r), H |-> H])
+    /\ ocache' = ReloadedCache(r)
     /\ UNCHANGED <<store, staged, sobjs, up>>
 
 -----------------------------------------------------------------------------
@@ -450,7 +473,7 @@ Copy(r, s, it) ==       \* any file synchroniser: one item, any order
     /\ cnt' = Tick
     /\ act' = [n |-> "Copy", r |-> r, it |-> it]
     /\ sched' = Append(sched, [op |-> "copy_item", r |-> RIndex(r), s |-> RIndex(s), kind |-> it.kind, name |-> it.name])
-    /\ UNCHANGED <<known, applied, apacks, staged, sobjs, up>>
+    /\ UNCHANGED <<known, applied, apacks, staged, sobjs, ocache, up>>
 
 \* meld(other): the blocks `s` has loaded and the packs `s` has indexed, re-read (and hash-checked)
 \* from s's storage; blocks are written first, then packs
@@ -466,7 +489,7 @@ Meld(r, s) ==
     /\ cnt' = Tick
     /\ act' = [n |-> "Meld", r |-> r, s |-> s]
     /\ sched' = Append(sched, [op |-> "meld", r |-> RIndex(r), s |-> RIndex(s)])
-    /\ UNCHANGED <<known, applied, apacks, staged, sobjs, up>>
+    /\ UNCHANGED <<known, applied, apacks, staged, sobjs, ocache, up>>
 
 MeldCrash(r, s) ==      \* the process stops after a prefix of meld's writes (all blocks before any pack)
     /\ "meld" \in Feat /\ "crash" \in Feat /\ r # s /\ up[r] /\ up[s] /\ Budget /\ cnt.crash < MaxCrash
@@ -495,6 +518,7 @@ Unstage(r) ==
     /\ "unstage" \in Feat /\ up[r] /\ Budget /\ (HasStaging(r) \/ sobjs[r] # {})
     /\ staged' = [staged EXCEPT ![r] = [o \in Obj |-> IF "unstage_keeps_new" \in Bug /\ TreeC(r, o) = {} THEN @[o] ELSE {}]]
     /\ sobjs' = [sobjs EXCEPT ![r] = {}]
+    /\ ocache' = [ocache EXCEPT ![r] = IF "unstage_keeps_cache" \in Bug THEN @ ELSE @ \ sobjs[r]]
     /\ cnt' = Tick
     /\ act' = [n |-> "Unstage", r |-> r]
     /\ sched' = Append(sched, [op |-> "unstage", r |-> RIndex(r)])
@@ -512,6 +536,7 @@ Snapshot(r) ==
        /\ \E o \in Obj : new[o] # {}
        /\ staged' = [staged EXCEPT ![r] = [o \in Obj |-> @[o] \cup new[o]]]
        /\ sobjs' = [sobjs EXCEPT ![r] = @ \cup StageObjs(r, UNION {new[o] : o \in Obj})]
+       /\ ocache' = Cached(r, UNION {new[o] : o \in Obj})
     /\ cnt' = Tick
     /\ act' = [n |-> "Snapshot", r |-> r]
     /\ sched' = Append(sched, [op |-> "snapshot", r |-> RIndex(r)])
@@ -528,7 +553,7 @@ Damage(r, it) ==
           /\ sched' = Append(sched, [op |-> "damage_item", r |-> RIndex(r), kind |-> it.kind, name |-> it.name, how |-> "delete"])
     /\ cnt' = Bump("damage")
     /\ act' = [n |-> "Damage", r |-> r, it |-> it]
-    /\ UNCHANGED <<known, applied, apacks, staged, sobjs, up>>
+    /\ UNCHANGED <<known, applied, apacks, staged, sobjs, ocache, up>>
 
 -----------------------------------------------------------------------------
 Quiescent(r) == up[r] /\ ~HasStaging(r)
